@@ -1,9 +1,559 @@
 package main
 
-import "verifharness/sim"
+import (
+	"context"
+	"errors"
+	"fmt"
+	"math/rand"
+	"strings"
+	"time"
 
-type ostatus struct {
-	Name string `json:"name"`
+	"github.com/anacrolix/dht/v2"
+	"github.com/anacrolix/dht/v2/bep44"
+	"github.com/anacrolix/dht/v2/exts/getput"
+	"golang.org/x/time/rate"
+
+	"verifharness/sim"
+)
+
+// oscen is one owner scenario: which owner, what the starting-node resolver gives, what the user
+// does to stop it and at which quiescent point, and who reads Announce.Peers.
+type oscen struct {
+	Name     string // stable name (replay handle)
+	Owner    string // Bootstrap | Announce | Get | Put | Refresh   (the owner kinds of Owners.tla)
+	KeyAPI   string // the API named in a finding's key
+	SN       string // ok | empty | error
+	Stop     string // none | cancel | srvclose | annclose | stoptrav | srvclose+annclose
+	Point    int    // 0 before the call, 1 first round in flight, 2 second round in flight, 3 put / announce_peer in flight, 9 no stop
+	Release  bool   // answer the round in flight before the stop event (replies reach the DoQuery callbacks)
+	Cons     string // reading | gone | gone1
+	InFlight string // held | parked: how the queries in flight at the stop point end afterwards (reply | time-out)
+	Opts     bool   // announce: also announce_peer to the closest nodes
+	NoValue  bool   // get: nobody has the item
+	Cause    string
 }
 
-func runOwners(tr *sim.Trace, seed int64, only string, n int) []ostatus { return nil }
+func ownerScenarios() []oscen {
+	var r []oscen
+	add := func(s oscen) {
+		if s.Cons == "" {
+			s.Cons = "reading"
+		}
+		if s.InFlight == "" {
+			s.InFlight = "held"
+		}
+		switch {
+		case s.SN != "ok":
+			s.Cause = "starting-nodes-error"
+		case (s.Stop == "annclose" || s.Stop == "stoptrav") && s.Cons != "reading":
+			s.Cause = "consumer-not-reading"
+		case s.Stop == "cancel":
+			s.Cause = "ctx-cancelled"
+		case strings.HasPrefix(s.Stop, "srvclose"):
+			s.Cause = "server-closed"
+		case s.Stop == "annclose":
+			s.Cause = "closed"
+		case s.Stop == "stoptrav":
+			s.Cause = "stopped"
+		default:
+			s.Cause = "finished"
+		}
+		if s.Owner == "Announce" {
+			switch s.Stop {
+			case "annclose", "srvclose+annclose":
+				s.KeyAPI = "Announce.Close"
+			case "stoptrav":
+				s.KeyAPI = "Announce.StopTraversing"
+			}
+		}
+		r = append(r, s)
+	}
+	for _, o := range []struct{ owner, api string }{{"Bootstrap", "BootstrapContext"}, {"Get", "getput.Get"}, {"Put", "getput.Put"}} {
+		b := oscen{Owner: o.owner, KeyAPI: o.api}
+		n := func(x string) string { return o.api + "/" + x }
+		for _, sn := range []string{"empty", "error"} {
+			s := b
+			s.SN, s.Stop, s.Point, s.Name = sn, "none", 9, n("sn="+sn)
+			add(s)
+			s.Stop, s.Point, s.Name = "cancel", 0, n("sn="+sn+"/cancel@0")
+			add(s)
+		}
+		b.SN = "ok"
+		s := b
+		s.Stop, s.Point, s.Name = "none", 9, n("finish")
+		add(s)
+		if o.owner == "Get" {
+			s.NoValue, s.Name = true, n("finish-novalue")
+			add(s)
+		}
+		for _, stop := range []string{"cancel", "srvclose"} {
+			s = b
+			s.Stop, s.Point, s.Name = stop, 0, n(stop+"@0")
+			add(s)
+			pts := []int{1, 2}
+			if o.owner == "Put" {
+				pts = []int{1, 2, 3}
+			}
+			for _, pt := range pts {
+				for _, inf := range []string{"held", "parked"} {
+					if stop == "srvclose" && inf == "held" {
+						continue // a closed server drops the replies: those queries can only end by time-out
+					}
+					s = b
+					s.Stop, s.Point, s.InFlight = stop, pt, inf
+					s.Name = n(stop + "@" + string(rune('0'+pt)) + "/" + inf)
+					add(s)
+				}
+			}
+		}
+	}
+	a := oscen{Owner: "Announce", KeyAPI: "Announce"}
+	n := func(x string) string { return "Announce/" + x }
+	for _, sn := range []string{"empty", "error"} {
+		s := a
+		s.SN, s.Stop, s.Point, s.Name = sn, "none", 9, n("sn="+sn)
+		add(s)
+	}
+	a.SN = "ok"
+	s := a
+	s.Stop, s.Point, s.Name = "none", 9, n("finish")
+	add(s)
+	s.Opts, s.Name = true, n("finish/announce_peer")
+	add(s)
+	s = a
+	s.Stop, s.Point, s.Name = "srvclose", 0, n("srvclose@0")
+	add(s)
+	for _, stop := range []string{"annclose", "stoptrav"} {
+		for _, pt := range []int{1, 2} {
+			for _, inf := range []string{"held", "parked"} {
+				s = a
+				s.Stop, s.Point, s.InFlight = stop, pt, inf
+				s.Name = n(stop + "@" + string(rune('0'+pt)) + "/" + inf)
+				add(s)
+			}
+		}
+		// the replies of the first round have reached getPeers, which hands them to Peers
+		for _, cons := range []string{"reading", "gone", "gone1"} {
+			s = a
+			s.Stop, s.Point, s.Release, s.Cons = stop, 1, true, cons
+			s.Name = n(stop + "@1+replies/consumer-" + cons)
+			add(s)
+		}
+	}
+	for _, inf := range []string{"held", "parked"} {
+		s = a
+		s.Stop, s.Point, s.InFlight, s.Opts = "annclose", 3, inf, true
+		s.Name = n("annclose@3/" + inf)
+		add(s)
+	}
+	s = a
+	s.Stop, s.Point, s.InFlight, s.Name = "srvclose+annclose", 1, "parked", n("srvclose@1+annclose/parked")
+	add(s)
+	s = a
+	s.Stop, s.Point, s.Release, s.Cons, s.Name = "none", 1, true, "gone", n("nostop/consumer-gone")
+	add(s)
+	for _, ph := range []string{"boot", "refresh", "sleep"} {
+		pt := map[string]int{"boot": 1, "refresh": 2, "sleep": 9}[ph]
+		add(oscen{Owner: "Refresh", KeyAPI: "TableMaintainer", SN: "ok", Stop: "srvclose", Point: pt, InFlight: "parked",
+			Name: "TableMaintainer/srvclose@" + ph})
+	}
+	return r
+}
+
+type ostatus struct {
+	Name   string   `json:"name"`
+	Hung   bool     `json:"hung"`
+	What   string   `json:"what"`
+	Leaked []string `json:"leaked"`
+	Skip   string   `json:"skip"`
+}
+
+type orun struct {
+	tr  *sim.Trace
+	seg int
+	sc  oscen
+	rng *rand.Rand
+}
+
+func (r *orun) emit(kind string, kv ...any) {
+	m := sim.M{"seg": r.seg, "e": kind}
+	for i := 0; i+1 < len(kv); i += 2 {
+		m[kv[i].(string)] = kv[i+1]
+	}
+	r.tr.Emit(m)
+}
+
+func classOwner(err error) string {
+	switch {
+	case err == nil:
+		return "ok"
+	case errors.Is(err, context.Canceled), errors.Is(err, context.DeadlineExceeded):
+		return "ctxErr"
+	case strings.Contains(err.Error(), "no initial nodes"), strings.Contains(err.Error(), "getting starting nodes"):
+		return "startErr"
+	}
+	return "other"
+}
+
+func isSub(q string) bool { return q == "announce_peer" || q == "put" }
+
+func runOwner(tr *sim.Trace, seg int, seed int64, sc oscen) ostatus {
+	r := &orun{tr: tr, seg: seg, sc: sc, rng: rand.New(rand.NewSource(seed*7919 + int64(seg)))}
+	st := ostatus{Name: sc.Name}
+	conn := newLifeConn("10.9.0.1:4000")
+	nw := newSimNet(conn)
+	conn.OnWrite = nw.onWrite
+
+	// topology: two starting nodes, two nodes behind them
+	kinds := [4]string{"resp", "resp", "resp", "resp"}
+	switch sc.Point {
+	case 1:
+		if sc.InFlight == "parked" {
+			kinds[0], kinds[1] = "parked", "parked"
+		}
+	case 2:
+		if sc.InFlight == "parked" && sc.Owner != "Refresh" {
+			kinds[2], kinds[3] = "parked", "parked"
+		}
+	case 9, 0:
+		if sc.Owner != "Refresh" && r.rng.Intn(2) == 0 {
+			kinds[1] = "silent"
+		}
+	}
+	var nd [4]*simNode
+	for i := range nd {
+		nd[i] = nw.addNode(r.rng, i, kinds[i])
+	}
+	nd[0].nodes = []*simNode{nd[2], nd[3]}
+	nd[1].nodes = []*simNode{nd[3]}
+	nd[2].nodes = []*simNode{nd[0]}
+	if !sc.NoValue {
+		nd[2].value = true
+		if sc.Owner == "Announce" {
+			nd[0].value = true
+		}
+	}
+	if sc.Point == 3 || (sc.Owner == "Refresh" && sc.Point == 2) {
+		for _, x := range nd {
+			x.again = map[string]string{"held": "resp", "parked": "parked"}[sc.InFlight]
+		}
+	}
+	if sc.Point == 0 || sc.Point == 9 {
+		nw.mu.Lock()
+		nw.hold = false
+		nw.mu.Unlock()
+	}
+
+	starting := func() ([]dht.Addr, error) {
+		switch sc.SN {
+		case "empty":
+			return nil, nil
+		case "error":
+			return nil, errors.New("resolver down")
+		}
+		return []dht.Addr{dht.NewAddr(nd[0].addr), dht.NewAddr(nd[1].addr)}, nil
+	}
+	pre := idsOf(scan())
+	srv, err := dht.NewServer(&dht.ServerConfig{
+		Conn: conn, NoSecurity: true, NodeId: randID(r.rng), QueryResendDelay: nw.resendDelay,
+		SendLimiter: rate.NewLimiter(rate.Inf, 1), Logger: quietLogger(), StartingNodes: starting,
+	})
+	must(err)
+	base := idsOf(scan())
+	own := map[int]bool{}
+	for id := range base {
+		if !pre[id] {
+			own[id] = true
+		}
+	}
+	txns := func() int { return srv.Stats().OutstandingTransactions }
+	ctx, cancel := context.WithCancel(context.Background())
+	defer cancel()
+
+	api := sc.KeyAPI
+	if sc.Owner == "Bootstrap" && sc.Stop != "cancel" && r.rng.Intn(2) == 0 {
+		api = "Bootstrap"
+	}
+	if sc.Owner == "Announce" {
+		api = []string{"Announce", "AnnounceTraversal"}[r.rng.Intn(2)]
+	}
+	r.emit("OStart", "owner", sc.Owner, "name", sc.Name, "sn", sc.SN, "api", api, "keyapi", sc.KeyAPI, "cause", sc.Cause,
+		"stop", sc.Stop, "point", sc.Point, "cons", sc.Cons, "inflight", sc.InFlight, "seed", seed)
+
+	stopEvent := func(ann *dht.Announce) {
+		for _, ev := range strings.Split(sc.Stop, "+") {
+			switch ev {
+			case "cancel":
+				cancel()
+				r.emit("OCancel")
+			case "srvclose":
+				srv.Close()
+				nw.setClosed()
+				r.emit("OSrvClose")
+			case "annclose":
+				if ann != nil {
+					ann.Close()
+					r.emit("OAnnClose")
+				}
+			case "stoptrav":
+				if ann != nil {
+					ann.StopTraversing()
+					r.emit("OStopTrav")
+				}
+			}
+		}
+	}
+	if sc.Point == 0 {
+		stopEvent(nil)
+	}
+
+	retCh := make(chan error, 1)
+	var ann *dht.Announce
+	consGone := make(chan struct{}, 1)
+	r.emit("OCall")
+	switch sc.Owner {
+	case "Bootstrap":
+		go func() {
+			var err error
+			if api == "Bootstrap" {
+				_, err = srv.Bootstrap()
+			} else {
+				_, err = srv.BootstrapContext(ctx)
+			}
+			retCh <- err
+		}()
+	case "Get":
+		go func() {
+			_, _, err := getput.Get(ctx, bep44.Target(nw.target), srv, nil, nil)
+			if err != nil && err.Error() == "value not found" {
+				err = nil
+			}
+			retCh <- err
+		}()
+	case "Put":
+		go func() {
+			_, err := getput.Put(ctx, nw.target, srv, nil, func(int64) bep44.Put { return bep44.Put{V: "hello"} })
+			retCh <- err
+		}()
+	case "Refresh":
+		go func() {
+			srv.TableMaintainer()
+			retCh <- nil
+		}()
+	case "Announce":
+		var err error
+		if api == "Announce" {
+			port := 0
+			if sc.Opts {
+				port = 4321
+			}
+			ann, err = srv.Announce(nw.target, port, false)
+		} else if sc.Opts {
+			ann, err = srv.AnnounceTraversal(nw.target, dht.AnnouncePeer(dht.AnnouncePeerOpts{Port: 4321}))
+		} else {
+			ann, err = srv.AnnounceTraversal(nw.target, dht.Scrape())
+		}
+		r.emit("ORet", "class", classOwner(err))
+		if ann != nil {
+			switch sc.Cons {
+			case "reading":
+				go func() {
+					for range ann.Peers {
+					}
+				}()
+			case "gone":
+				r.emit("OConsGone")
+			case "gone1":
+				go func() {
+					<-ann.Peers
+					consGone <- struct{}{}
+				}()
+			}
+		}
+	}
+	returned := sc.Owner == "Announce"
+	awaitRet := func(bound time.Duration) bool {
+		if returned {
+			return true
+		}
+		select {
+		case err := <-retCh:
+			returned = true
+			r.emit("ORet", "class", classOwner(err))
+			return true
+		case <-time.After(bound):
+			return false
+		}
+	}
+	fail := func(what string) { // the scenario's point was not reached: no verdict from it
+		if st.Skip == "" {
+			h, p := nw.counts()
+			nw.mu.Lock()
+			st.Skip = fmt.Sprintf("%s (held %d, parked %d, sent %v)", what, h, p, nw.sent)
+			nw.mu.Unlock()
+		}
+	}
+
+	// ---- advance to the scenario's point
+	running := sc.SN == "ok" && (sc.Owner != "Announce" || ann != nil)
+	if running && sc.Point >= 1 && sc.Point <= 3 {
+		switch {
+		case sc.Owner == "Refresh" && sc.Point == 1:
+			if !nw.waitInFlight(2, expectBound) {
+				fail("the bootstrap's first queries never appeared")
+			}
+		case sc.Owner == "Refresh" && sc.Point == 2:
+			// bootstrap is answered as it goes; the refresh asks the same nodes again and those are parked
+			deadline := time.Now().Add(expectBound)
+			for {
+				nw.release()
+				if _, p := nw.counts(); p >= 1 {
+					break
+				}
+				if time.Now().After(deadline) {
+					fail("the bucket refresh never queried anybody")
+					break
+				}
+				time.Sleep(100 * time.Microsecond)
+			}
+			in := false
+			for _, g := range scan() {
+				in = in || g.has("(*Server).refreshBucket")
+			}
+			if !in && st.Skip == "" {
+				fail("queries parked but the maintainer is not inside refreshBucket")
+			}
+		default:
+			if !nw.waitInFlight(2, expectBound) {
+				fail("the first round of queries never appeared")
+			}
+			if sc.Point >= 2 && st.Skip == "" {
+				nw.release()
+				if !nw.waitInFlight(2, expectBound) {
+					fail("the second round of queries never appeared")
+				}
+			}
+			if sc.Point == 3 && st.Skip == "" {
+				deadline := time.Now().Add(expectBound)
+				for nw.subsInFlight() < 4 {
+					nw.releaseExcept(isSub)
+					if time.Now().After(deadline) {
+						fail("the put / announce_peer queries never appeared")
+						break
+					}
+					time.Sleep(100 * time.Microsecond)
+				}
+			}
+			if sc.Release && st.Skip == "" {
+				nw.release()
+				if sc.Cons == "gone1" {
+					select {
+					case <-consGone:
+						r.emit("OConsGone")
+					case <-time.After(expectBound):
+						fail("no value ever reached the reader of Peers")
+					}
+				}
+				// the callbacks that got a reply are now handing it over (or blocked doing so)
+				time.Sleep(2 * time.Millisecond)
+			}
+		}
+	}
+	if sc.Owner == "Refresh" && sc.Point == 9 {
+		deadline := time.Now().Add(2 * expectBound)
+		for {
+			asleep := false
+			for _, g := range scan() {
+				if len(g.frames) > 0 && strings.HasSuffix(g.frames[0], "(*Server).TableMaintainer") && strings.Contains(g.state, "select") {
+					asleep = true
+				}
+			}
+			if asleep && txns() == 0 {
+				break
+			}
+			if time.Now().After(deadline) {
+				fail("the table maintainer never went to sleep")
+				break
+			}
+			time.Sleep(500 * time.Microsecond)
+		}
+	}
+
+	// ---- the stop event, then let everything in flight end
+	if sc.Point != 0 && st.Skip == "" {
+		stopEvent(ann)
+	}
+	nw.drain()
+	must := true // Owners!MustEndFor
+	if sc.Owner == "Announce" {
+		must = ann == nil || sc.Stop == "annclose" || sc.Stop == "stoptrav" || sc.Stop == "srvclose+annclose" || sc.Cons == "reading"
+	}
+	if st.Skip != "" {
+		// abandon: make everything end and say nothing
+		cancel()
+		if ann != nil {
+			ann.Close()
+		}
+		closeServer(srv, conn)
+		awaitRet(expectBound)
+		nw.stop()
+		waitServeLoopGone(own)
+		r.emit("OSkip", "why", st.Skip)
+		return st
+	}
+	if !awaitRet(expectBound) {
+		st.Hung, st.What = true, sc.KeyAPI+" has not returned"
+	}
+	if ann != nil && must {
+		select {
+		case <-ann.Finished():
+		case <-time.After(expectBound):
+			st.Hung, st.What = true, "Announce.Finished() never signalled"
+		}
+	}
+	bound := leakBound
+	if !must {
+		bound = 20 * time.Millisecond // nothing is owed (Owners!MustEndFor): what is seen is logged, not judged
+	}
+	t, left := waitClean(txns, base, bound)
+	if must {
+		st.Leaked = sigs(left)
+	}
+	r.emit("OQuiesce", "txns", t, "gor", len(left), "hung", st.Hung, "left", sigs(left), "what", st.What)
+
+	// ---- teardown
+	cancel()
+	if ann != nil {
+		ann.Close()
+	}
+	closeServer(srv, conn)
+	if !returned {
+		awaitRet(100 * time.Millisecond)
+	}
+	nw.stop()
+	waitServeLoopGone(own)
+	return st
+}
+
+func runOwners(tr *sim.Trace, seed int64, only string, n int, part, parts int) []ostatus {
+	var sts []ostatus
+	names := map[string]bool{}
+	for _, x := range strings.Split(only, ",") {
+		if x != "" {
+			names[x] = true
+		}
+	}
+	for i, sc := range ownerScenarios() {
+		if len(names) > 0 && !names[sc.Name] {
+			continue
+		}
+		if len(names) == 0 && i%parts != part {
+			continue
+		}
+		if len(sts) >= n {
+			break
+		}
+		sts = append(sts, runOwner(tr, i, seed, sc))
+	}
+	return sts
+}
